@@ -562,7 +562,8 @@ def cross_entropy(
             f"cross_entropy input shape is {input.shape}, but should be either"
             " (vocab_size,) or (batch_size, vocab_size)"
         )
-    input = scale_bwd(input, vocab_size / (vocab_size - 1) ** 0.5)
+    # (a single class has an identically-zero gradient: any finite scale will do)
+    input = scale_bwd(input, vocab_size / max(vocab_size - 1, 1) ** 0.5)
     input = scale_fwd(input, mult)
     loss = F.cross_entropy(
         input,
